@@ -1,6 +1,7 @@
 #![allow(dead_code)]
 mod gen;
 mod handles;
+mod mem;
 mod model;
 mod ops;
 mod oracles;
@@ -10,6 +11,9 @@ mod rt;
 mod runner;
 
 use runner::{KnownFile, Tier, ViolationReport};
+
+#[global_allocator]
+static GLOBAL: mem::CountingAlloc = mem::CountingAlloc;
 use std::collections::BTreeMap;
 
 fn arg<'a>(args: &'a [String], name: &str) -> Option<&'a str> {
@@ -118,6 +122,7 @@ fn main() {
                     println!("  thread {:?}", t);
                 }
                 println!("  ledger {:?}", ex.ledger);
+                println!("  mem {:?} samples {:?} reclaim_batches {} frees {} allocs {}", ex.mem, ex.stats.mem_samples, ex.outcome.reclaim_batches, ex.outcome.frees, ex.outcome.allocs);
             }
             std::process::exit(if findings.is_empty() { 0 } else { 1 });
         }
